@@ -5,13 +5,13 @@ VIOLATION line whose replay file is the crashing input (replayed with tools/fuzz
 import json, os, re, shutil, subprocess, sys, time
 
 V = os.path.dirname(os.path.dirname(os.path.abspath(__file__)))
-TARGETS = {"C19": ("autosql_parse", 3_000_000), "C10": ("bbi_read", 300_000), "C01": ("bw_roundtrip", 60_000)}
+TARGETS = {"C19": ("autosql_parse", int(os.environ.get("VERIF_FUZZ_RUNS", 3_000_000))), "C10": ("bbi_read", int(os.environ.get("VERIF_FUZZ_RUNS", 100_000))), "C01": ("bw_roundtrip", int(os.environ.get("VERIF_FUZZ_RUNS", 50_000)))}
 
 
 def env():
     e = dict(os.environ)
     e["CARGO_NET_OFFLINE"] = "true"
-    e["RUSTFLAGS"] = "--cfg bigtools_verif"
+    e["RUSTFLAGS"] = "--cfg bigtools_verif --cfg rustix_use_libc"  # rustix 0.37 (pinned by /repo's lock file) only builds with its libc backend on the nightly toolchain
     e["CARGO_TARGET_DIR"] = os.path.join(V, "target", "fuzz")
     e["RUST_BACKTRACE"] = "0"
     return e
@@ -24,7 +24,7 @@ def main():
     target, runs = TARGETS[pid]
     fz = os.path.join(V, "fuzz")
     if len(sys.argv) > 3 and sys.argv[2] == "--replay":
-        r = subprocess.run(["cargo", "+nightly", "fuzz", "run", target, sys.argv[3], "--", "-runs=1", "-timeout=10", "-rss_limit_mb=2048"], cwd=fz, env=env())
+        r = subprocess.run(["cargo", "+nightly", "fuzz", "run", "--fuzz-dir", fz, target, sys.argv[3], "--", "-runs=1", "-timeout=10", "-rss_limit_mb=2048"], cwd=os.path.join(V, "harness"), env=env())
         if r.returncode != 0:
             print("VIOLATION property=%s replay=%s" % (pid, sys.argv[3]))
             return 1
@@ -38,15 +38,15 @@ def main():
     shutil.rmtree(art, ignore_errors=True)
     os.makedirs(art)
     t0 = time.time()
-    b = subprocess.run(["cargo", "+nightly", "fuzz", "build", target], cwd=fz, env=env(), capture_output=True, text=True)
+    b = subprocess.run(["cargo", "+nightly", "fuzz", "build", "--fuzz-dir", fz, target], cwd=os.path.join(V, "harness"), env=env(), capture_output=True, text=True)
     if b.returncode != 0:
         print(b.stderr[-2000:])
         print("fuzz build failed")
         return 2
-    args = ["cargo", "+nightly", "fuzz", "run", target, corpus] + ([seeds] if os.path.isdir(seeds) else []) + [
+    args = ["cargo", "+nightly", "fuzz", "run", "--fuzz-dir", fz, target, corpus] + ([seeds] if os.path.isdir(seeds) else []) + [
         "--", "-runs=%d" % runs, "-seed=%d" % seed, "-timeout=10", "-rss_limit_mb=2048", "-len_control=0", "-max_len=4096",
         "-print_final_stats=1", "-artifact_prefix=" + art]
-    r = subprocess.run(args, cwd=fz, env=env(), capture_output=True, text=True)
+    r = subprocess.run(args, cwd=os.path.join(V, "harness"), env=env(), capture_output=True, text=True)
     out = r.stderr + r.stdout
     execs = re.search(r"stat::number_of_executed_units:\s*(\d+)", out)
     feats = re.findall(r"ft: (\d+)", out)
